@@ -153,8 +153,19 @@ def todict_exact(inp):
 
 
 # ------------------------------------------------------------------ decompose
-@check("C19", "decompose.slices", gen_plain(150, 4000), functions=("numpoly.decompose", "numpoly.concatenate", "numpoly.polynomial_from_attributes"),
-       note=SPACE + "; result has shape (k,)+shape, every slice holds at most one monomial, slices sum to the input")
+def gen_decompose(tier, rng):
+    yield from gen_plain(150, 4000)(tier, rng)
+    # coefficient types other than the default ones, and 64-bit integers that no float64 holds (the slices are the input's own
+    # coefficients: nothing may pass through another type)
+    for dt, pool in (("int64", [2 ** 53 + 1, -(2 ** 53) - 1, 2 ** 62 + 3, 5]), ("uint64", [2 ** 53 + 1, 2 ** 63 + 5, 2 ** 64 - 1, 7]),
+                     ("int8", [-128, 127, 3]), ("uint8", [255, 200, 1]), ("int32", [2 ** 31 - 1, -7]), ("float32", [0.5, -1.5, 16777216.0])):
+        for _ in range(count(tier, 4, 40)):
+            yield {"p": rand_poly(rng, shape=tuple(rng.choice(SHAPES)), dtype=dt, pool=pool, maxterms=3)}
+
+
+@check("C19", "decompose.slices", gen_decompose, functions=("numpoly.decompose", "numpoly.concatenate", "numpoly.polynomial_from_attributes"),
+       note=SPACE + "; result has shape (k,)+shape, every slice holds at most one monomial, slices sum to the input; also int8/uint8/int32/"
+       "float32 and 64-bit integer coefficients beyond 2**53; dtype of the result = dtype of the input")
 def decompose_slices(inp):
     import numpoly
     install_poison()
@@ -166,6 +177,8 @@ def decompose_slices(inp):
         return msg
     if tuple(r.shape[1:]) != model.shape or r.ndim != len(model.shape) + 1:
         return f"shape {r.shape}, expected (k,)+{model.shape}"
+    if r.dtype != p.dtype:
+        return f"dtype {r.dtype}, the input has {p.dtype}"
     R = from_ndpoly(r)
     total = numpy.empty(model.shape, dtype=object)
     for idx in numpy.ndindex(*model.shape):
